@@ -454,7 +454,58 @@ def overwrite(run, fx):
     return n
 
 
+def poolhead(run, fx):
+    """OWNFIELD for the preloaded glyph and box pools: ~GlyphCache releases element 0 of `_glyphs` / `_boxes` when the loader is gone
+    (the element points at the whole pool).  So wherever the constructor gives a pool up itself (`delete [] glyphs`, `free(boxes)` on a
+    failed preload), the published head element is nulled in the same straight-line region -- otherwise the destructor frees the pool a
+    second time (and Face::readGlyphs's `glyph(0) == 0` failure test no longer sees the failure)."""
+    ct = [f for f in fx.fns_named('graphite2::GlyphCache::GlyphCache') if not f.f.get('implicit')][0]
+    dt = fx.one('graphite2::GlyphCache::~GlyphCache')
+
+    def head_released(fn):
+        out = {}
+        for _, e in fn.elements():
+            tgt = None
+            if e['k'] == 'CXXDeleteExpr':
+                tgt, kind = fn.strip_all_casts(fn.N(e['c'][0])), 'delete'
+            elif e['k'] == 'CallExpr' and e.get('fq') == 'free' and e.get('args'):
+                tgt, kind = fn.strip_all_casts(fn.N(e['args'][0])), 'free'
+            if tgt is not None and tgt['k'] == 'ArraySubscriptExpr' and fn.strip_all_casts(fn.N(tgt['c'][1])).get('v') == 0:
+                b_ = fn.strip_all_casts(fn.N(tgt['c'][0]))
+                if b_['k'] == 'MemberExpr':
+                    out[kind] = b_['d']
+        return out
+    heads = head_released(dt)
+    if set(heads) != {'delete', 'free'}:
+        run.broken('OWNFIELD', 'pool heads', '~GlyphCache is expected to release _glyphs[0] with delete[] and _boxes[0] with free, found %s' % heads, dt.where())
+        return
+    n = 0
+    for _, e in ct.elements():
+        kind = arg = None
+        if e['k'] == 'CXXDeleteExpr' and e.get('arr'):
+            kind, arg = 'delete', ct.strip_all_casts(ct.N(e['c'][0]))
+        elif e['k'] == 'CallExpr' and e.get('fq') == 'free' and e.get('args'):
+            kind, arg = 'free', ct.strip_all_casts(ct.N(e['args'][0]))
+        if kind is None or arg['k'] != 'DeclRefExpr' or arg.get('vid') is None:
+            continue
+        n += 1
+        F_ = heads[kind]
+        inst = 'the constructor nulls %s[0] where it gives up the pool `%s`' % (F_.split('::')[-1], ct.render(arg))
+        blk = ct.block_of[e['i']]
+        nulls = [x for x in ct.blocks[blk]['el'] if x['k'] == 'BinaryOperator' and x['op'] == '=' and ct.is_null(x['c'][1])
+                 and ct.strip(x['c'][0])['k'] == 'ArraySubscriptExpr' and ct.strip_all_casts(ct.N(ct.strip(x['c'][0])['c'][1])).get('v') == 0
+                 and ct.strip_all_casts(ct.N(ct.strip(x['c'][0])['c'][0])).get('d') == F_]
+        if nulls:
+            run.held('OWNFIELD', inst, ct.loc(e), 'head element nulled next to the release')
+        else:
+            run.violated('OWNFIELD', inst, ct.loc(e), 'GlyphCache::GlyphCache releases the pool `%s` (%s) without storing null into %s[0], which still points at it: ~GlyphCache releases %s[0] again '
+                         'when the face is destroyed (double free), and the `glyph(0) == 0` test of the failed preload no longer fires' % (ct.render(arg), ct.render(e), F_.split('::')[-1], F_.split('::')[-1]))
+    if n < 2:
+        run.broken('OWNFIELD', 'pool heads', 'expected the two pool releases of the failed preload in GlyphCache::GlyphCache, found %d' % n, ct.where())
+
+
 def freenull(run, fx):
+    poolhead(run, fx)
     """OWNFIELD, third part: a member function other than the destructor that frees one of the object's own buffers leaves the field
     pointing somewhere else (null, or a replacement) on every path to its exit.  Such functions run while the object lives on --
     Silf::releaseBuffers runs on the reject path of readGraphite AND again from ~Silf, Face::Table::release from every owner -- so a
